@@ -76,7 +76,8 @@ func handleClient(s *IMAPServer, conn net.Conn, state *models.ClientState) {
 		case "STORE":
 			message.HandleStore(s, conn, tag, parts, state)
 		case "COPY":
-			message.HandleCopy(s, conn, tag, parts, state)
+			// HandleCopy expects the command word first: COPY <sequence-set> <mailbox>
+			message.HandleCopy(s, conn, tag, parts[1:], state)
 		case "STATUS":
 			mailbox.HandleStatus(s, conn, tag, parts, state)
 		case "UID":
